@@ -509,11 +509,9 @@ class Frame(Widget, WidgetContainerMixin, typing.Generic[BodyWidget, HeaderWidge
             return self.footer.keypress((maxcol,), key)
         if self.focus_part != "body":
             return key
-        remaining = maxrow
-        if self.header is not None:
-            remaining -= self.header.rows((maxcol,))
-        if self.footer is not None:
-            remaining -= self.footer.rows((maxcol,))
+        # the body gets the rows render() gives it: a header and footer too tall for the frame are cut there
+        (htrim, ftrim), _orig = self.frame_top_bottom((maxcol, maxrow), True)
+        remaining = maxrow - htrim - ftrim
         if remaining <= 0:
             return key
 
